@@ -6,7 +6,9 @@
 //	ms <op>...   ops: b | a<k> | r<k> | fa | f:<id,..> | m:<id,..> | s:<id,..> | c
 //	tx <op>...   ops: N | T<j>:<m> | Z<j>:<m> | C<j> | R<j> | L<j>
 //	sx <op>...   real sidx: w | fa | pm:<id,..> | ps:<id,..> | cm | rb | a<k> | r<k>
-//	ss <op>...   real stream tsTable: w<segment id> | ff (flusher step) | a<k> | r<k> | c
+//	ss <op>...   real stream tsTables (two shards): w<segment id> | v (write to shard B) | ff (flusher step) |
+//	             q:<lo>-<hi> | e:<lo>-<hi> (getBlockScanner over both shards, scanned / closed early) | a<k> | r<k> | c
+//	sx adds:     fe (flush round with nothing to flush: empty introduction)
 //	st <writers> <readers> <batches>   concurrent smoke run with the real loops (supporting exploration only)
 //
 // Output: one dump per op, joined by " | ".
@@ -146,7 +148,7 @@ func runSidx(ops []string) string {
 		res := ""
 		busy := v.Pending()
 		switch {
-		case op == "w" || op == "fa" || strings.HasPrefix(op, "pm:") || strings.HasPrefix(op, "ps:"):
+		case op == "w" || op == "fa" || op == "fe" || strings.HasPrefix(op, "pm:") || strings.HasPrefix(op, "ps:"):
 			// the single introducer never interleaves another publication with a prepared one
 			if busy {
 				res = "busy "
@@ -157,6 +159,10 @@ func runSidx(ops []string) string {
 				v.Write()
 			case op == "fa":
 				v.FlushAll()
+			case op == "fe":
+				if !v.FlushEmpty() {
+					res = "none "
+				}
 			case strings.HasPrefix(op, "pm:"):
 				if !v.PrepareMerge(parseIDs(op[3:])) {
 					res = "none "
@@ -228,6 +234,22 @@ func runStream(ops []string) string {
 			} else {
 				v.FlusherStep()
 			}
+		case op == "v":
+			if v.Closed() {
+				res = "closed "
+			} else {
+				v.WriteB()
+			}
+		case strings.HasPrefix(op, "q:") || strings.HasPrefix(op, "e:"):
+			// real query entry over both shards: q:<lo>-<hi> scans everything, e:<lo>-<hi> closes early
+			if v.Closed() {
+				res = "closed "
+				break
+			}
+			f := strings.Split(op[2:], "-")
+			lo, _ := strconv.ParseInt(f[0], 10, 64)
+			hi, _ := strconv.ParseInt(f[1], 10, 64)
+			res = "q=" + v.Query(lo, hi, op[0] == 'e') + " "
 		case strings.HasPrefix(op, "w"):
 			seg, _ := strconv.ParseInt(op[1:], 10, 64)
 			if v.Closed() {
@@ -263,7 +285,11 @@ type toySnap struct {
 func (s *toySnap) IncRef() { atomic.AddInt32(&s.ref, 1) }
 func (s *toySnap) DecRef() { atomic.AddInt32(&s.ref, -1) }
 
-type toyMgr struct{ cur *toySnap }
+type toyMgr struct {
+	cur *toySnap
+	idx int
+	log *[]int // order in which ReplaceSnapshot reaches the managers
+}
 
 func (m *toyMgr) CurrentSnapshot() *toySnap {
 	if m.cur == nil {
@@ -278,6 +304,9 @@ func (m *toyMgr) ReplaceSnapshot(next *toySnap) {
 		m.cur.DecRef()
 	}
 	m.cur = next
+	if m.log != nil {
+		*m.log = append(*m.log, m.idx)
+	}
 }
 
 type toyTxn struct {
@@ -293,7 +322,8 @@ func runTxn(ops []string) string {
 		snaps = append(snaps, s)
 		return s
 	}
-	mgrs := []*toyMgr{{cur: newSnap()}, {cur: newSnap()}, {}}
+	var order []int
+	mgrs := []*toyMgr{{cur: newSnap(), idx: 0, log: &order}, {cur: newSnap(), idx: 1, log: &order}, {idx: 2, log: &order}}
 	var txns []*toyTxn
 	dump := func() string {
 		var c, r []string
@@ -347,7 +377,17 @@ func runTxn(ops []string) string {
 			}
 			switch op[0] {
 			case 'C':
+				order = order[:0]
 				txns[j].txn.Commit()
+				// observed publication order of this commit (manager indices), "-" when nothing was replaced
+				var o []string
+				for _, m := range order {
+					o = append(o, strconv.Itoa(m))
+				}
+				if len(o) == 0 {
+					o = []string{"-"}
+				}
+				res = "ord=" + strings.Join(o, ",") + " "
 			case 'R':
 				txns[j].txn.Rollback()
 			case 'L':
